@@ -35,6 +35,14 @@ func (em ExtendMergerFunc) Merge(inputs []*MergeInput) (*MergeResult, error) {
 	schemas := []*ast.Schema{inputs[0].Schema}
 
 	for i, input := range inputs[1:] {
+		// shared types are compared declaration by declaration: whether two services fit together
+		// must not depend on what was merged before them, i.e. on the order of the list
+		for _, prev := range schemas {
+			if err := checkSharedObjects(prev.Types, input.Schema.Types); err != nil {
+				return nil, err
+			}
+		}
+
 		mergedTypes, err := mergeTypes(merged.Types, input.Schema.Types, schemas[i], input.Schema)
 		if err != nil {
 			return nil, err
@@ -164,6 +172,30 @@ func mergeTypes(a, b map[string]*ast.Definition, as, bs *ast.Schema) (map[string
 	}
 
 	return result, nil
+}
+
+// checkSharedObjects reports a conflict if a plain (not Node) type declared by both schemas is
+// neither identical nor disjoint in them
+func checkSharedObjects(a, b map[string]*ast.Definition) error {
+	for k, vb := range b {
+		va, found := a[k]
+		if !found || common.IsBuiltinName(k) || common.IsRootObjectName(k) || vb.Name == common.NodeInterfaceName {
+			continue
+		}
+		if va.Kind != vb.Kind || (va.Kind != ast.Object && va.Kind != ast.InputObject && va.Kind != ast.Interface) {
+			continue
+		}
+		if isImplementsNodeInterface(va) || isImplementsNodeInterface(vb) {
+			continue
+		}
+		if _, err := mergeCustomObjectFields(a, b, va, vb); err != nil {
+			return err
+		}
+		if _, err := mergeCustomObjectFields(b, a, vb, va); err != nil {
+			return err
+		}
+	}
+	return nil
 }
 
 func mergeImplements(sources []*ast.Schema) map[string][]*ast.Definition {
